@@ -12,8 +12,13 @@ import (
 	"time"
 
 	"github.com/bokysan/socketace/v2/internal/socketace"
+	sadns "github.com/bokysan/socketace/v2/internal/streams/dns"
+	"github.com/bokysan/socketace/v2/internal/streams/dns/commands"
 	"github.com/bokysan/socketace/v2/internal/util/cert"
+	"github.com/bokysan/socketace/v2/internal/util/enc"
+	mdns "github.com/miekg/dns"
 	"github.com/xtaci/kcp-go/v5"
+	"golang.org/x/net/dns/dnsmessage"
 )
 
 // ---- C02 `hol <carrier> <k>`: k idle logical connections are opened on one session (each has echoed one
@@ -148,6 +153,36 @@ func stallPeer(kind, point, addr string, first []byte) (func(), error) {
 	switch kind {
 	case "udp":
 		c, err = kcp.DialWithOptions(addr, nil, 10, 3)
+	case "dns":
+		// a DNS tunnel peer: "version" = it opens a tunnel session (version exchange) and then never speaks again;
+		// anything else = it sends one query that is no tunnel command and stays
+		c, err = net.DialTimeout("udp", addr, 3*time.Second)
+		if err != nil {
+			return nil, err
+		}
+		cl := func() { _ = c.Close() }
+		var q []byte
+		if point == "version" {
+			ser := commands.Serializer{Domain: "example.org"}
+			m, e := ser.EncodeDnsRequestWithParams(&commands.VersionRequest{ClientVersion: sadns.ProtocolVersion}, dnsmessage.TypeCNAME, enc.Base32Encoding)
+			if e != nil {
+				return cl, e
+			}
+			q, e = m.Pack()
+			if e != nil {
+				return cl, e
+			}
+		} else {
+			m := new(mdns.Msg)
+			m.SetQuestion("www.example.org.", mdns.TypeA)
+			q, _ = m.Pack()
+		}
+		_ = c.SetDeadline(time.Now().Add(3 * time.Second))
+		_, _ = c.Write(q)
+		buf := make([]byte, 4096)
+		_, _ = c.Read(buf)
+		_ = c.SetDeadline(time.Time{})
+		return cl, nil
 	default:
 		c, err = net.DialTimeout("tcp", addr, 3*time.Second)
 	}
@@ -280,6 +315,8 @@ func (stallComp) Gen(r *Rand, tier string, emit func(string)) {
 	emit("udp connect 1")
 	// the established client's session is held while the peers stay stalled (any handshake watchdog or deadline the
 	// server arms for the stalled peers expires meanwhile)
+	emit("dns version 3")
+	emit("dns other 2")
 	emit("tcp connect 1 12 sf")
 	if tier == "thorough" {
 		emit("tcp connect 1 25 sf")
@@ -290,6 +327,7 @@ func (stallComp) Gen(r *Rand, tier string, emit func(string)) {
 		emit("udp connect 1 25 sf")
 		emit("tcp connect 2 45 gf")
 		emit("tcp garbage 1 65 sf")
+		emit("dns version 1 70 sf") // the endpoint's once-a-minute retirement of silent sessions falls inside the hold
 		for _, k := range []string{"tcp", "starttls"} {
 			for _, p := range []string{"connect", "partial", "garbage", "between", "afterupgrade"} {
 				emit(k + " " + p + " 5")
